@@ -224,8 +224,21 @@ def timed(fn):
 
 
 def bounds_layout(name, dim):
-    """(bounds argument, x0) for a layout; None entries exercise every branch of _process_bounds."""
-    x0 = [0.0] * dim
+    """(bounds argument, x0) for a layout; None entries exercise every branch of _process_bounds.
+
+    x0 has pairwise distinct, non-zero dyadic coordinates of alternating sign (a constant x0 hides every bug that
+    mixes up its coordinates); it lies strictly inside the box of every layout except `excl`, where every coordinate
+    lies outside."""
+    sgn = lambda i: 1.0 if i % 2 == 0 else -1.0
+    x0 = [sgn(i) * (i + 1) / 16 for i in range(dim)]            # 1/16, -1/8, 3/16, -1/4
+    if name == "halfspace":
+        x0 = [sgn(i) * (i + 1) / 64 for i in range(dim)]        # inside (-1/8, 1/8)
+    elif name == "tight":
+        x0 = [sgn(i) * (i + 1) / 512 for i in range(dim)]       # inside (-1/64, 1/64)
+    elif name == "narrow":
+        x0 = [1 / 1024] + [sgn(i) * (i + 1) / 16 for i in range(1, dim)]
+    elif name == "excl":
+        x0 = [-(i + 1) / 16 for i in range(dim)]                # below the box [1/4, 1] in every coordinate
     if name == "none":
         return None, x0
     if name == "box":
